@@ -4,6 +4,7 @@ import AasVerif.Lemmas.Lit.Py
 import AasVerif.Lemmas.Lit.Cpp
 import AasVerif.Lemmas.Lit.Ts
 import AasVerif.Lemmas.Lit.Java
+import AasVerif.Lemmas.Lit.Wchar
 /-!
 # C19 — Emitted literals denote exactly the original values
 
@@ -298,5 +299,43 @@ theorem java_needs_escaping_iff (s : Text) :
 example : enc_java [0xD83D, 92, 117, 0x1F600] = .ok (Text.ofString "\"\\ud83d\\\\u" ++ [0x1F600, 34]) := by decide
 /-- by the JLS the second backslash of `\\` is not eligible to start a Unicode escape -/
 example : dec_java (Text.ofString "\"\\ud83d\\\\u" ++ [0x1F600, 34]) = some [0xD83D, 92, 117, 0xD83D, 0xDE00] := by decide
+
+/-! ## C++ wide character literals, Python `needs_escaping` -/
+
+/-- `wchar_literal`: the literal `L'…'` (or `static_cast<wchar_t>(0x…)` for a surrogate) denotes the character. -/
+theorem cppc_roundtrip (c : Nat) (hc : c < 0x110000) :
+    ∃ lit, enc_cppc [c] = .ok lit ∧ dec_cppc lit = some [c] := wchar_roundtrip c hc
+
+/-- anything but a single character is reported by the precondition -/
+theorem cppc_error_outside (s : Text) (h : s.length ≠ 1) : enc_cppc s = .err "ViolationError" := by
+  match s, h with
+  | [], _ => rfl
+  | [_], h => exact absurd rfl h
+  | _ :: _ :: _, _ => rfl
+
+theorem py_needs_escaping_iff (s : Text) :
+    needs_py false s = true ↔ enc_py .double false false s ≠ .ok ([34] ++ s ++ [34]) := by
+  have henc : enc_py .double false false s = .ok ([34] ++ s.flatMap (pyEscChar Gen.Lit.pyDouble) ++ [34]) := by
+    unfold enc_py
+    simp only [pyUsesSingle, Bool.false_eq_true, if_false, pyTable, stripped]
+    rw [isStripped_quoted 34 _ (by decide)]; rfl
+  rw [henc]
+  have := flatMap_eq_self_iff (pyEscChar Gen.Lit.pyDouble) needsCharPy py_needs_false py_needs_true s
+  have hn : needs_py false s = s.any needsCharPy := by
+    unfold needs_py; cases s.any needsCharPy <;> simp
+  rw [hn]
+  constructor
+  · intro hn heq
+    simp only [Res.ok.injEq, List.cons_append, List.nil_append, List.cons.injEq, true_and,
+      List.append_cancel_right_eq] at heq
+    rw [this.1 heq] at hn; exact absurd hn (by decide)
+  · intro hne
+    cases hb : s.any needsCharPy with
+    | true => rfl
+    | false => exact absurd (by rw [this.2 hb]) hne
+
+example : enc_cppc [0xDFFF] = .ok (Text.ofString "static_cast<wchar_t>(0xdfff)") := by decide
+example : dec_cppc (Text.ofString "static_cast<wchar_t>(0xdfff)") = some [0xDFFF] := by decide
+example : dec_cppc (Text.ofString "L'\\x1f'") = some [31] := by decide
 
 end AasVerif.Props.C19
